@@ -110,7 +110,7 @@ class Gen:
             return self.loop_init()
         em = [("open", 1, [24, 23]), ("open", 2, [24])]
         if r < 8:
-            self.emit(*self.maybe_fail(em + [("socket", 1, [24, 23, 97])]), "tcp_init " + rng.choice(["unspec", "unspec", "inet", "inet6"]))
+            self.emit(*self.maybe_fail(em + [("socket", 1, [24, 23, 97])]), "tcp_init " + rng.choice(["unspec", "unspec", "inet"]))
         elif r < 14:
             self.emit(*self.maybe_fail(em), "pipe_init " + rng.choice(["0", "0", "1"]))
         elif r < 18:
@@ -379,7 +379,11 @@ def check_program(ctx, exe, prog, idx, stats, do_diff=True):
     viols, impl = judge(ctx, prog, rc, out, err)
     ctx.count()
     for sig, what in viols:
-        small = shrink(ctx, exe, prog, sig)
+        if sig in ctx.known or any(v["sig"] == sig for v in ctx.violations):
+            ctx.violation(sig, what, {"program": prog})
+            continue
+        # shrinking is expensive: do it for the first few signatures only
+        small = shrink(ctx, exe, prog, sig) if len(ctx.violations) < 3 else prog
         ctx.violation(sig, what, {"program": small, "full_program": prog})
     fired = sum(1 for l in impl if l.startswith("env fail "))
     stats["faults_fired"] += fired
